@@ -985,6 +985,23 @@ fn main() {
             Err(e) => errors.push(format!("parse error in {}: {}", p, e)),
         }
     }
+    // a trait-impl method `impl Tr for T { fn m }` whose key collides with an inherent method `impl T { fn m }`
+    // of the same file (e.g. `impl ContractOverrides for RWA { fn transfer }` next to `RWA::transfer`) is
+    // emitted under the key `T::Tr__m` / name `Tr__m`; paths `T::m` keep resolving to the inherent method,
+    // exactly as rustc resolves them.
+    {
+        let inherent: BTreeSet<(String, String)> =
+            c.fns.iter().filter(|f| f.trait_name.is_none() && f.impl_type.is_some()).map(|f| (f.file.clone(), f.key.clone())).collect();
+        for f in c.fns.iter_mut() {
+            if let (Some(tr), Some(ty), false) = (f.trait_name.clone(), f.impl_type.clone(), f.in_trait_decl) {
+                if inherent.contains(&(f.file.clone(), f.key.clone())) {
+                    let nm = format!("{}__{}", tr, f.sig.ident);
+                    f.key = format!("{}::{}", ty, nm);
+                    f.sig.ident = Ident::new(&nm, f.sig.ident.span());
+                }
+            }
+        }
+    }
     // selection
     let sel: Vec<String> = job["fns"].as_array().map(|a| a.iter().map(|v| v.as_str().unwrap().to_string()).collect()).unwrap_or_default();
     let all = sel.iter().any(|s| s == "*");
